@@ -154,6 +154,9 @@ def strip_deaths(world):
 
 def run(ctx):
     run_cases(ctx, cw.corpus_cases(PROP) + gen_cases(ctx))
+    # a child that cannot be started is "something went wrong" too
+    from harness import corr_channel
+    corr_channel.spawn_failure_cases(ctx)
 
 
 def replay(ctx, obj):
